@@ -173,8 +173,35 @@ func zzvDeviations(name string, base *telemetry.Report) []zzvReq {
 		m["X"] = x
 		add(fmt.Sprintf("X=%g", x), m, "valid")
 	}
-	if len(base.Programs) > 0 {
-		prog := func(m map[string]any) map[string]any { return m["Programs"].([]any)[0].(map[string]any) }
+	// every deviation of a program entry twice: in the report's first entry, and in a copy of that entry appended
+	// behind the untouched ones (an approved entry in front must not vouch for a later entry of the same program)
+	for _, pos := range []string{"first", "appended"} {
+		if len(base.Programs) == 0 {
+			break
+		}
+		obj, add := obj, add
+		if pos == "appended" {
+			obj0, add0 := obj, add
+			obj = func() map[string]any {
+				m := obj0()
+				ps := obj0()["Programs"].([]any)
+				m["Programs"] = append(m["Programs"].([]any), ps[0])
+				return m
+			}
+			add = func(desc string, m map[string]any, class string) {
+				if class == "valid" {
+					class = "dontcare" // (two entries of one build in a report: not spoken of)
+				}
+				add0("appended-entry "+desc, m, class)
+			}
+		}
+		prog := func(m map[string]any) map[string]any {
+			ps := m["Programs"].([]any)
+			if pos == "appended" {
+				return ps[len(ps)-1].(map[string]any)
+			}
+			return ps[0].(map[string]any)
+		}
 		for _, f := range [][2]string{{"Program", "example.com/p9"}, {"Program", "example.com/p1x"}, {"Program", ""}, {"Version", "v9.9.9"}, {"Version", ""}, {"Version", "v1.0"},
 			{"GoVersion", "go1.99.0"}, {"GoVersion", "go1.21"}, {"GOOS", "plan9"}, {"GOOS", ""}, {"GOARCH", "riscv64"}, {"GOARCH", "AMD64"}} {
 			m := obj()
@@ -220,6 +247,8 @@ func zzvDeviations(name string, base *telemetry.Report) []zzvReq {
 			prog(m)["Counters"].(map[string]any)["c"] = v
 			add(fmt.Sprintf("value %v", v), m, "valid")
 		}
+	}
+	if len(base.Programs) > 0 {
 		m := obj()
 		m["Programs"] = []any{nil}
 		add("Programs=[null]", m, "invalid")
@@ -244,7 +273,7 @@ func TestVerifC12(t *testing.T) {
 	res := vrep.New("C12", p)
 	defer res.Guard()
 	base, _ := vrep.Scratch("c12")
-	res.Rule = "E3: 3 base reports x every single field deviation (14 invalid + 4 valid weeks, 8+4 configs, 8+8 X values, 12+4 build fields, 14+1 counters, 6+4 stacks, 7+3 values, null/ill-typed programs) x {POST} plus 7 methods x 4 paths, truncation of a valid body at every byte offset, white-space padding to limit-1/limit/limit+1, BOM, array, null, trailing garbage, duplicate keys; each through the real newHandler chain with a file-system bucket;  plus chunked bodies, trailing data / second report / white space beyond the limit after a valid report, E2 sequences of valid uploads, and a loopback-TCP leg (sender half-closes after bodies cut at 5 positions x 3 repeats); classes = (expected class, status)"
+	res.Rule = "E3: 3 base reports x every single field deviation (14 invalid + 4 valid weeks, 8+4 configs, 8+8 X values, 12+4 build fields, 14+1 counters, 6+4 stacks, 7+3 values, null/ill-typed programs; the program-entry deviations also in a copy of the first entry appended behind the untouched entries) x {POST} plus 7 methods x 4 paths, truncation of a valid body at every byte offset, white-space padding to limit-1/limit/limit+1, BOM, array, null, trailing garbage, duplicate keys; each through the real newHandler chain with a file-system bucket;  plus chunked bodies, trailing data / second report / white space beyond the limit after a valid report, E2 sequences of valid uploads, and a loopback-TCP leg (sender half-closes after bodies cut at 5 positions x 3 repeats); classes = (expected class, status)"
 	res.Assumptions = []string{"the GCS backend is not exercised", "requests are served through httptest recorders (no sockets)"}
 	if p.Replay != "" {
 		fmt.Println("C12 replay: cases are deterministic; re-run the quick check")
